@@ -30,6 +30,7 @@ META = {
     "note": "trusted: CPython, the harness in /verif/vf (vt.py sources, seqref.py simulator), VirtualTimeScheduler's queue discipline "
     "(checked by C28/C29); operators and sources are built fresh per execution (re-subscription of one operator object is C04/C44)",
 }
+META["text"] += "; thread part: concat/catch/on_error_resume_next/repeat/retry/start_with over synchronous and scheduled sources subscribed on the NewThreadScheduler, every interleaving up to the preemption bound: output = the concatenation, one source at a time"
 RULE = (
     "all (operator form, parameters, source list) triples: source lists = every tuple of <=L timelines from the structural set "
     "(sync/async, empty, terminal C/E/never, terminal with last element), counts 0..3 and None cut by take(1..3), both ways of "
